@@ -25,6 +25,10 @@ def main():
     atexit.register(shutil.rmtree, scratch, True)
     os.environ["SAS_DLL_PATH"] = os.path.join(scratch, "dll")
     os.environ["VERIF_SCRATCH"] = scratch
+    # temporary files of the library under test (make_dll writes its C source with tempfile.mkstemp) and of the
+    # scripted builders that are killed half way go to the scratch directory too, so that nothing is left in /tmp
+    os.environ["TMPDIR"] = scratch
+    tempfile.tempdir = None
     os.environ.setdefault("HOME", scratch)
     if args.replay:
         data = json.load(open(args.replay))
